@@ -1,30 +1,29 @@
 #!/usr/bin/env python3
 """Re-runs every property check against every kept seeded change (seeded/*/patch.diff) and
-updates meta.json (caught_by, checks); prints the table used in DESIGN.md section 11.5."""
+updates meta.json (caught_by, checks, evaluated_on_commit). usage: seeded_refresh.py [prefix ...]"""
 import sys, os, json, glob
+from concurrent.futures import ThreadPoolExecutor
 sys.path.insert(0, os.path.dirname(os.path.abspath(__file__)))
 import seed_eval
 props = sorted(json.load(open('/verif/tools/manifest_src.json'))['checks'].keys())
 only = sys.argv[1:]
-rows = []
-for d in sorted(glob.glob('/verif/seeded/*/')):
+dirs = [d for d in sorted(glob.glob('/verif/seeded/*/')) if not only or any(os.path.basename(d.rstrip('/')).startswith(o) for o in only)]
+
+def one(d):
     name = os.path.basename(d.rstrip('/'))
-    if only and not any(name.startswith(o) for o in only):
-        m = json.load(open(d + 'meta.json'))
+    m = json.load(open(d + 'meta.json'))
+    r = seed_eval.run_checks(d + 'patch.diff', props)
+    base = r.pop('_evaluated_on_commit', None) if isinstance(r, dict) else None
+    m['checks'] = r
+    if base:
+        m['evaluated_on_commit'] = base
     else:
-        m = json.load(open(d + 'meta.json'))
-        r = seed_eval.run_checks(d + 'patch.diff', props)
-        m['checks'] = r
-        m['caught_by'] = sorted(p for p, x in r.items() if isinstance(x, dict) and x.get('exit') == 1)
-        m['broken_checks'] = sorted(p for p, x in r.items() if isinstance(x, dict) and x.get('exit') not in (0, 1))
-        json.dump(m, open(d + 'meta.json', 'w'), indent=1)
-        print(name, 'caught_by=', m['caught_by'], 'broken=', m['broken_checks'], flush=True)
-    first = ''
-    for p in m.get('caught_by', []):
-        v = m['checks'][p].get('violations') or ['']
-        first = v[0].split(' @')[0].replace('violated ', '')
-        break
-    rows.append((name, m.get('confirmed'), ','.join(m.get('caught_by', [])) or '-', first, m.get('verdict_note', '')))
-print('\n| seeded change | confirmed | caught by | first violated obligation | note |\n|---|---|---|---|---|')
-for r in rows:
-    print('| %s | %s | %s | %s | %s |' % r)
+        m.pop('evaluated_on_commit', None)
+    m['caught_by'] = sorted(p for p, x in r.items() if isinstance(x, dict) and x.get('exit') == 1)
+    m['broken_checks'] = sorted(p for p, x in r.items() if isinstance(x, dict) and x.get('exit') not in (0, 1))
+    json.dump(m, open(d + 'meta.json', 'w'), indent=1)
+    return name, m['caught_by'], m['broken_checks'], base
+
+with ThreadPoolExecutor(max_workers=5) as ex:
+    for name, caught, broken, base in ex.map(one, dirs):
+        print(name, 'caught_by=', caught, 'broken=', broken, ('on ' + base) if base else '', flush=True)
